@@ -256,6 +256,14 @@ def Db.restart (d : Db) : Db :=
   { cfg := d.cfg, nextRef := r.lastRef, series := r.series, deleted := r.deleted, latestEx := [], wal := w,
     pend := {}, acked := d.acked, lastMint := d.lastMint }
 
+/-- `Querier`, `ChunkQuerier`, `ExemplarQuerier`: always `ErrUnsupported`. -/
+inductive QErr | unsupported
+deriving DecidableEq, Repr
+
+def Db.querier (_ : Db) (_ _ : Int) : Except QErr Unit := .error .unsupported
+def Db.chunkQuerier (_ : Db) (_ _ : Int) : Except QErr Unit := .error .unsupported
+def Db.exemplarQuerier (_ : Db) : Except QErr Unit := .error .unsupported
+
 /-! ### operations -/
 
 inductive Op
